@@ -51,11 +51,11 @@ theorem one_call_per_caller (s : St) (h : Reachable s) (c : Nat) : inProgress s 
   callerOnce_reachable s h c
 
 /-- the result reaches the caller however the server groups its answers: an rpc_result inside a container
-(at any depth) is handed over exactly as a plain one -/
-theorem container_like_plain (s : St) (mid seq cm cs rid : Nat) (v : String) :
-    (process s cm cs (.cont [(mid, seq, .res rid v)])).owedDeliver = (process s mid seq (.res rid v)).owedDeliver ∧
-    (process s cm cs (.cont [(mid, seq, .res rid v)])).pending = (process s mid seq (.res rid v)).pending := by
-  simp only [process, processAll, oweAck]
+(at any depth the client accepts containers at) is handed over exactly as a plain one -/
+theorem container_like_plain (d : Nat) (hd : d < maxContainerDepth) (s : St) (mid seq cm cs rid : Nat) (v : String) :
+    (process d s cm cs (.cont [(mid, seq, .res rid v)])).owedDeliver = (process 0 s mid seq (.res rid v)).owedDeliver ∧
+    (process d s cm cs (.cont [(mid, seq, .res rid v)])).pending = (process 0 s mid seq (.res rid v)).pending := by
+  simp only [process, processAll, oweAck, hd, if_true]
   split <;> split <;> simp
 
 /-! ## non-vacuity: two callers, answers in the opposite order, one in a container -/
